@@ -27,6 +27,7 @@ type goVal struct {
 
 type goc struct {
 	e     *Engine
+	lets  map[string]Expr
 	vars  map[string]goVal
 	bound map[string]bool
 	depth int
@@ -145,6 +146,9 @@ func (g *goc) val(e Expr) goVal {
 		if v, ok := g.vars[x.Name]; ok {
 			return v
 		}
+		if l, ok := g.lets[x.Name]; ok {
+			return g.val(l)
+		}
 		if x.Name == "nil" {
 			return goVal{code: "nil", kind: "nil"}
 		}
@@ -158,6 +162,14 @@ func (g *goc) val(e Expr) goVal {
 			return goVal{code: "!(" + g.boolean(x.X) + ")", kind: "bool"}
 		case "-":
 			return goVal{code: "-(" + g.int(x.X) + ")", kind: "int"}
+		case "*":
+			v := g.val(x.X)
+			if v.kind == "val" && v.typ != nil {
+				if pt, ok := v.typ.Underlying().(*types.Pointer); ok {
+					return g.lift("(*"+v.code+")", pt.Elem())
+				}
+			}
+			return g.fail("dereference of a non-pointer")
 		}
 		return g.fail("unsupported unary operator %s", x.Op)
 	case *EBin:
@@ -460,7 +472,10 @@ func (e *Engine) compileOracle(fn *ssa.Function, c *Contract, label string, lits
 	if clause == nil {
 		return "", "", "", "no postcondition labelled " + label
 	}
-	g := &goc{e: e, vars: map[string]goVal{}, bound: map[string]bool{}}
+	g := &goc{e: e, vars: map[string]goVal{}, bound: map[string]bool{}, lets: map[string]Expr{}}
+	for _, l := range c.Lets {
+		g.lets[l.Name] = l.E
+	}
 	var sb strings.Builder
 	var args []string
 	specName := func(i int, actual string) string {
